@@ -3,7 +3,7 @@
    size, pending limit, block verdicts) and over every label sequence the
    model accepts from the initial state, i.e. over every schedule, every
    Stop / cancellation point and every failed submission. *)
-From V Require Import Lib.Base C42.Model C42.Tac C42.InvB C42.InvO C42.InvS C42.Safety C42.Prog C42.Complete C42.Gen.
+From V Require Import Lib.Base C42.Model C42.Tac C42.InvB C42.InvO C42.InvS C42.Safety C42.Prog C42.Complete C42.StopLive C42.Gen.
 From Coq Require Import Sorted.
 
 (* ApplyFunc is called in strictly increasing sequence order (hence at most
@@ -61,6 +61,21 @@ Proof.
   split; [apply (never_panics c s R)|apply (stop_done c s R)].
 Qed.
 Print Assumptions C42_stop_safe.
+
+(* Stop terminates and ends all pipeline goroutines: once Stop has been called
+   (context cancelled), in every state where neither the pipeline nor a
+   Submit in progress can do anything more, Stop has closed every channel and
+   returned, all workers of both pools and the apply runner have returned.
+   (No assumption on the consumers: Stop does not need Results()/Errors() to be read.) *)
+Theorem C42_stop_terminates : forall c ls s, 1 <= nD c -> run c init ls = Some s ->
+  1 <= sphase s -> quiescent c s ->
+  sphase s = 5 /\ wexit s 0 = nw c 0 /\ (von c = true -> wexit s 1 = nw c 1) /\ rst s = RExit /\ panicked s = false.
+Proof.
+  intros c ls s ND H ST Q. pose proof (reach_run c ls init s (reach_init c) H) as R.
+  assert (P : sphase s = 5) by (eapply sl_done; eassumption).
+  destruct (stop_done c s R P) as (A & B & C). repeat split; auto. apply (never_panics c s R).
+Qed.
+Print Assumptions C42_stop_terminates.
 
 (* the default configuration satisfies the side conditions of C42_complete *)
 Theorem C42_defaults_ok : 1 <= default_decode_workers /\ 1 <= default_buffer.
